@@ -38,6 +38,7 @@ ASSUMPTIONS = [
     "are outside C10's inputs)",
     "through Sgp4 the state is a step function of time (the sgp4 package's Julian date, 40 us): the value of "
     "the watched quantity at a located event is held to 45 us x its rate instead of the bisection's 3 us",
+    "no leap second inside the iterated span (C03: the library's dates do not handle them)",
     "EOP: zero corrections on even shards, real tables (missing policy 'pass' for Date.now()) on odd shards",
 ]
 LEVEL_TEXT = "exploration"
@@ -135,6 +136,13 @@ def source_spec(draw, props=("kepler", "kepler", "sgp4", "keplernum", "ephem")):
         step = float(max(20, round(step / 10) * 10))
     n = max(9, min(nmax, int(periods * period / step)))
     case.update(step=step, n=n, offset=0.0 if prop in ("keplernum",) else float(draw(st.integers(0, 600))))
+    # leap seconds are not handled by the library's dates (C03): keep them out of the span
+    from ..oracles import iers
+
+    span_days = int((600 + (n + 12) * step) // 86400) + 2
+    for leap in iers.tables(env.repo()).leap_days(0):
+        if case["mjd"] - 1 <= leap <= case["mjd"] + span_days:
+            case["mjd"] = leap + 2
     if prop == "ephem":
         case["ephem_native"] = draw(st.booleans())
     return case
@@ -681,7 +689,7 @@ def check_sharp(case):
     for ev in events[:8]:
         g = gs[ev.lis]
         lis = listeners[ev.lis]
-        lo, hi = ev.us - 5, min(ev.us + 5, last_us)
+        lo, hi = max(ev.us - 5, items[sidx[0]].us), min(ev.us + 5, last_us)
         a = propagate_at(prop_src, case, items, start, lo)
         b = propagate_at(prop_src, case, items, start, hi)
         if g.kind == "light":
